@@ -726,7 +726,7 @@ func runTransportCase(r *vf.Run, pool []*keys.Identity, tc tcase) {
 func TestCheck(t *testing.T) {
 	r := vf.Start(t, "C03", vf.Exploration)
 	defer r.Finish()
-	r.SetRule("chain cases = harness-made DER chains: every variant of {valid (own construction / package extension / critical), binding embeds another key, binding signed by another key, binding over another cert key, binding lifted from another certificate, wrong / no prefix, extension missing / other OID / empty / not ASN.1 / truncated at PRNG position / one bit flipped at PRNG position / duplicated, certificate signed by another key (same name / CA), expired, not yet valid, chain of 0 / 2 distinct / 2 equal / valid+garbage / garbage} x cert key type {P-256, P-384, Ed25519} x expected-peer constraint {none, K, another peer}; each is given to PubKeyFromCertChain (when parsable) and to the VerifyPeerCertificate callback of Identity.ConfigForPeer. Oracle by construction: accept <=> single self-signed cert with one binding signed by K over prefix||PKIX(cert key) and (no constraint or constraint = ID(K)); delivered key = K; no key on error. Transport cases = real pconn/quic transports and hostile raw quic-go endpoints (crafted tls.Config with those chains) on an in-memory switch, inbound and outbound, required-peer dial/listen with the right and the wrong honest peer answering, and mixed sequences on one listener; every link reported to a TransportHandler must name the identity held at its remote address, forged endpoints must get no link. Distinct = distinct (variant, key type, flags, position, constraint, path) resp. transport case.")
+	r.SetRule("chain cases = harness-made DER chains: every variant of {valid (own construction / package extension / critical), binding embeds another key, binding signed by another key, binding over another cert key, binding lifted from another certificate, wrong / no prefix, extension missing / other OID / empty / not ASN.1 / truncated at PRNG position / one bit flipped at PRNG position / duplicated, certificate signed by another key (same name / CA), expired, not yet valid, chain of 0 / 2 distinct / 2 equal / valid+garbage / garbage} x cert key type {P-256, P-384, Ed25519} x expected-peer constraint {none, K, another peer}; each is given to PubKeyFromCertChain (when parsable) and to the VerifyPeerCertificate callback of Identity.ConfigForPeer; chain histories = PRNG interleavings of families {honest chain H, forged chains re-using H's key extension / binding signature / TLS key / whole certificate} in the order forged* H forged+ [H forged*] per family, judged step by step by the same stateless oracle. Oracle by construction: accept <=> single self-signed cert with one binding signed by K over prefix||PKIX(cert key) and (no constraint or constraint = ID(K)); delivered key = K; no key on error. Transport cases = real pconn/quic transports and hostile raw quic-go endpoints (crafted tls.Config with those chains) on an in-memory switch, inbound and outbound, required-peer dial/listen with the right and the wrong honest peer answering, mixed sequences on one listener, PRNG histories in which an impersonator presents a certificate over its own TLS key carrying a byte copy of a running honest victim's key extension before and after the honest node had a session with that victim (inbound, outbound with / without required peer, two victims interleaved), and two DialPeer requests for one address with every ordered pair of required peers over {none, X, Y} while X resp. Y serves it, overlapping (the network holds the first dial in flight until the second request is parked behind it, detected by goroutine state) and sequential; every link reported to a TransportHandler must name the identity held at its remote address, forged endpoints must get no link. Distinct = distinct (variant, key type, flags, position, constraint, path) resp. transport case.")
 	r.Assume("crypto/x509, crypto/tls, crypto/ed25519 and quic-go are trusted; the harness' certificate builder is the ground truth for well-formedness")
 	r.Assume("expired / not-yet-valid certificates and bit flips in the DER header of the extension are not judged for acceptance (only: if accepted, the key is K)")
 
